@@ -97,8 +97,9 @@ def run_impl(case):
             with open(path, "w", newline="") as f:
                 f.write("".join(l + "\n" for l in case["prior"]))
         calls = []
+        shared = JetAnalysis() if case.get("reuse") else None       # one analysis object used for every call
         for call in case["calls"]:
-            ja = JetAnalysis()
+            ja = shared or JetAnalysis()
             err = None
             try:
                 with contextlib.redirect_stdout(io.StringIO()):
@@ -107,7 +108,7 @@ def run_impl(case):
             except Exception as e:
                 err = type(e).__name__
             calls.append({"err": err, "file": read_lines(path)})
-        ja = JetAnalysis()
+        ja = shared or JetAnalysis()
         try:
             ja.read_jet_data(path)
             rd = {"err": None, "data": ja.jet_data_, "jets": ja.get_jets(), "assoc": ja.get_associated_particles()}
@@ -432,8 +433,11 @@ def gen_case(rng, small=False):
         prior = [rng.choice(FOREIGN)] + OLDROWS[:rng.choice([0, 3])]
     else:
         prior = OLDROWS[:3] + [rng.choice(FOREIGN)]
-    ncalls = 1 if rng.random() < 0.6 else 2
+    ncalls = 1 if rng.random() < 0.5 else 2
     calls = [gen_call(rng) for _ in range(ncalls)]
+    reuse = ncalls == 2 and rng.random() < 0.6
+    if reuse and rng.random() < 0.5:
+        calls[1]["alg"] = calls[0]["alg"]                # same algorithm, (usually) another radius
     x = rng.random()
     if x < 0.05:
         c = rng.choice(calls)
@@ -452,7 +456,10 @@ def gen_case(rng, small=False):
     if small:
         for c in calls:
             c["events"] = [ev[:6] for ev in c["events"][:3]]
-    return {"prior": prior, "calls": calls}
+    case = {"prior": prior, "calls": calls}
+    if reuse:
+        case["reuse"] = True
+    return case
 
 
 # --------------------------------------------------------------------------- model side (Coq)
